@@ -183,7 +183,18 @@ func (b *builder) declareType(t ad.Type) {
 			}
 		})
 	case "collection":
-		b.types[t.Name] = CollectionOf(b.types[t.Base.Ref])
+		if t.Coll == nil {
+			b.types[t.Name] = CollectionOf(b.types[t.Base.Ref])
+		} else {
+			b.types[t.Name] = CollectionOf(b.types[t.Base.Ref], func() {
+				if t.Coll.Desc != "" {
+					Description(t.Coll.Desc)
+				}
+				for _, v := range t.Coll.Views {
+					View(v)
+				}
+			})
+		}
 	}
 }
 
@@ -469,7 +480,33 @@ func (b *builder) service(s ad.Service) {
 	})
 }
 
+// httpErrorForm writes the error response with its status in the given form (C05).
+func (b *builder) httpErrorForm(e ad.HTTPError) {
+	note := func() { Description("response of error " + e.Name) }
+	switch e.Form {
+	case "argfn":
+		Response(e.Name, e.Status, note)
+	case "code":
+		Response(e.Name, func() {
+			Code(e.Status)
+			note()
+		})
+	case "default":
+		Response(e.Name, note)
+	case "swapped":
+		Response(e.Status, e.Name)
+	case "bare":
+		Response(e.Name)
+	default:
+		panic("unknown error response form " + e.Form)
+	}
+}
+
 func (b *builder) httpError(e ad.HTTPError) {
+	if e.Form != "" && e.Form != "arg" {
+		b.httpErrorForm(e)
+		return
+	}
 	if len(e.Headers) == 0 {
 		Response(e.Name, e.Status)
 		return
